@@ -191,7 +191,13 @@ func (w *World) Close() {
 	if Poisoned {
 		return
 	}
+	w.mu.Lock()
+	var cs []*Client
 	for _, c := range w.Clients {
+		cs = append(cs, c)
+	}
+	w.mu.Unlock()
+	for _, c := range cs {
 		c.Close()
 	}
 	curMu.Lock()
@@ -225,7 +231,10 @@ type Client struct {
 // NewClient opens a new SQLite connection for the named client. If a client
 // of that name exists it is closed first (a re-open).
 func (w *World) NewClient(name string) *Client {
-	if old := w.Clients[name]; old != nil {
+	w.mu.Lock()
+	old := w.Clients[name]
+	w.mu.Unlock()
+	if old != nil {
 		old.Close()
 	}
 	db, err := sql.Open("sqlite3", ":memory:")
@@ -240,7 +249,9 @@ func (w *World) NewClient(name string) *Client {
 	n := tabNo
 	worldNoMu.Unlock()
 	c := &Client{W: w, Name: name, H: w.Handle(name), DB: db, Tab: fmt.Sprintf("t%d_%s", n, name)}
+	w.mu.Lock()
 	w.Clients[name] = c
+	w.mu.Unlock()
 	return c
 }
 
@@ -254,9 +265,11 @@ func (c *Client) Close() {
 		c.DB.Close()
 		c.DB = nil
 	}
+	c.W.mu.Lock()
 	if c.W.Clients[c.Name] == c {
 		delete(c.W.Clients, c.Name)
 	}
+	c.W.mu.Unlock()
 }
 
 // TableOpts describes a CREATE VIRTUAL TABLE ... USING s3db.
